@@ -132,7 +132,7 @@ def classify_longstring(ext: bool, text: str, out: str, indent: str) -> str:
     for s in secs:
         body = s[1:-1] if len(s) >= 2 else s
         if (len(body) - len(body.rstrip('\\'))) % 2 == 1:
-            return 'longstring:hard-cut-strands-backslash'
+            return 'longstring:cut-strands-backslash'
     if any(len(s) > 1002 for s in secs):
         return 'longstring:section-over-limit'
     return 'longstring:other-' + ('extended' if ext else 'plain')
@@ -163,7 +163,7 @@ def shrink_text(pred: Callable[[str], bool], s: str, budget: int = 400) -> str:
 # =============================================================================================== correspondence
 def corr_writer_reader(ck: Ck) -> None:
     rng = ck.rng
-    n_long, n_short = ck.budget(22, 300), ck.budget(260, 3000)
+    n_long, n_short = ck.budget(22, 120), ck.budget(260, 1500)
     corpus = [(True, '\t', ''), (False, '\t', ''), (True, '\t', 'q' * 999 + '"zz'), (False, '\t\t', 'q' * 999 + '\nzz'),
               (True, '\t', 'q' * 998 + '\\' + 'z'), (True, '', 'a b ' * 300), (True, '\t', ('w' * 130 + '\n') * 9),
               (False, '\t', 'x' * 1001), (True, '\t', 'x' * 1000), (True, '\t', ' ' + 'y' * 1500)]
@@ -239,58 +239,76 @@ def corr_writer_reader(ck: Ck) -> None:
 
 
 def corr_bits(ck: Ck) -> None:
-    """Exhaustive: value type x readonly, entity kind x alias, spawnflag power x default, resource type x has-tags."""
+    """Exhaustive: value type x readonly, entity kind x alias, spawnflag power x default, resource type x has-tags.
+    Each row holds the byte the implementation writes AND what the implementation reads back from it."""
     from srctools import _engine_db as E
+    from srctools.const import FileType
     from srctools.fgd import EntityDef, EntityTypes, KVDef, Resource, ValueTypes
-    rec = lambda s: b'\0\0'   # noqa: E731
-    rows_kv = []
+    table = ['k', 'd', '', 'n', 'f', 'x', 'T', 'spawnflags']
+
+    def enc(s: str) -> bytes:
+        if s not in table:
+            table.append(s)
+        return E._fmt_16bit.pack(table.index(s))
+
+    def kv_back(raw: bytes):
+        f = io.BytesIO(raw)
+        return E.kv_unserialise(f, E._py_make_lookup(f, table))
+
+    def ent_back(raw: bytes):
+        f = io.BytesIO(raw)
+        return E.ent_unserialise(f, 'x', E._py_make_lookup(f, table))
+    rows_kv, rows_ent, rows_flag, rows_res = [], [], [], []
     for vt in ValueTypes:
         if vt in (ValueTypes.CHOICES, ValueTypes.SPAWNFLAGS):
             continue
         for ro in (False, True):
             b = io.BytesIO()
-            E.kv_serialise(KVDef('k', vt, 'd', readonly=ro), b, rec)
-            rows_kv.append((vt.name, ro, b.getvalue()[4]))
+            E.kv_serialise(KVDef('k', vt, 'd', readonly=ro), b, enc)
+            back = kv_back(b.getvalue())
+            rows_kv.append((vt.name, ro, b.getvalue()[4], back.type.name, back.readonly))
             ck.count('corr_bits')
-    rows_ent = []
     for kind in EntityTypes:
         for al in (False, True):
             b = io.BytesIO()
-            E.ent_serialise(EntityDef(kind, 'x', is_alias=al), b, rec)
-            rows_ent.append((kind.name, al, b.getvalue()[0]))
+            E.ent_serialise(EntityDef(kind, 'x', is_alias=al), b, enc)
+            back = ent_back(b.getvalue())
+            rows_ent.append((kind.name, al, b.getvalue()[0], back.type.name, back.is_alias))
             ck.count('corr_bits')
-    rows_flag = []
     for p in range(0, 31):
         for d in (False, True):
             b = io.BytesIO()
-            E.kv_serialise(KVDef('spawnflags', ValueTypes.SPAWNFLAGS, 'f', val_list=[(1 << p, 'n', d, frozenset())]), b, rec)
-            rows_flag.append((p, d, b.getvalue()[6]))
+            E.kv_serialise(KVDef('spawnflags', ValueTypes.SPAWNFLAGS, 'f', val_list=[(1 << p, 'n', d, frozenset())]), b, enc)
+            back = kv_back(b.getvalue())
+            rows_flag.append((p, d, b.getvalue()[6], back.val_list[0][0], back.val_list[0][2]))
             ck.count('corr_bits')
-    rows_res = []
-    from srctools.const import FileType
     for ft in FileType:
         for tg in (False, True):
             b = io.BytesIO()
-            E.ent_serialise(EntityDef(EntityTypes.POINT, 'x', resources=[Resource('f', ft, frozenset({'T'}) if tg else frozenset())]), b, rec)
-            rows_res.append((ft.name, tg, b.getvalue()[6]))
+            E.ent_serialise(EntityDef(EntityTypes.POINT, 'x', resources=[Resource('f', ft, frozenset({'T'}) if tg else frozenset())]), b, enc)
+            back = ent_back(b.getvalue())
+            rows_res.append((ft.name, tg, b.getvalue()[6], back.resources[0].type.name, bool(back.resources[0].tags)))
             ck.count('corr_bits')
+    ck.seen(('bits', len(rows_kv), len(rows_ent), len(rows_flag), len(rows_res)))
     q = lambda s: '"%s"%%string' % s   # noqa: E731
     exprs = [
-        'bad_idx (fun c : string * bool * N => let \'(n, ro, b) := c in match encode_type value_type_order n with '
-        'Some i => (pack_flag7 (N.of_nat i) ro =? b) && match unpack_flag7 b with (j, r) => Bool.eqb r ro && '
-        'match decode_type value_type_order (N.to_nat j) with Some m => String.eqb m n | None => false end end | None => false end) 0 '
-        + coq_list(f'({q(n)}, {coq_bool(ro)}, {b})' for n, ro, b in rows_kv),
-        'bad_idx (fun c : string * bool * N => let \'(n, al, b) := c in '
+        'bad_idx (fun c : string * bool * N * (string * bool) => let \'(n, ro, b, (bn, bro)) := c in match encode_type value_type_order n with '
+        'Some i => (pack_flag7 (N.of_nat i) ro =? b) && match unpack_flag7 b with (j, r) => Bool.eqb r bro && '
+        'match decode_type value_type_order (N.to_nat j) with Some m => String.eqb m bn | None => false end end | None => false end) 0 '
+        + coq_list(f'({q(n)}, {coq_bool(ro)}, {b}, ({q(bn)}, {coq_bool(bro)}))' for n, ro, b, bn, bro in rows_kv),
+        'bad_idx (fun c : string * bool * N * (string * bool) => let \'(n, al, b, (bn, bal)) := c in '
         'let ty := flag_value (String.append "TYPE_"%string n) in '
         '(pack_entflags ty (flag_value "IS_ALIAS"%string) al =? b) && '
-        'match unpack_entflags (flag_value "MASK_TYPE"%string) (flag_value "IS_ALIAS"%string) b with (t, a) => (t =? ty) && Bool.eqb a al end) 0 '
-        + coq_list(f'({q(n)}, {coq_bool(al)}, {b})' for n, al, b in rows_ent),
-        'bad_idx (fun c : N * bool * N => let \'(p, d, b) := c in (pack_spawnflag (2 ^ p) d =? b) && '
-        'match unpack_spawnflag b with (m, dd) => (m =? 2 ^ p) && Bool.eqb dd d end) 0 '
-        + coq_list(f'({p}, {coq_bool(d)}, {b})' for p, d, b in rows_flag),
-        'bad_idx (fun c : string * bool * N => let \'(n, tg, b) := c in match encode_type file_type_order n with '
-        'Some i => pack_flag7 (N.of_nat i) tg =? b | None => false end) 0 '
-        + coq_list(f'({q(n)}, {coq_bool(tg)}, {b})' for n, tg, b in rows_res),
+        'match unpack_entflags (flag_value "MASK_TYPE"%string) (flag_value "IS_ALIAS"%string) b with (t, a) => '
+        '(t =? flag_value (String.append "TYPE_"%string bn)) && Bool.eqb a bal end) 0 '
+        + coq_list(f'({q(n)}, {coq_bool(al)}, {b}, ({q(bn)}, {coq_bool(bal)}))' for n, al, b, bn, bal in rows_ent),
+        'bad_idx (fun c : N * bool * N * (N * bool) => let \'(p, d, b, (bm, bd)) := c in (pack_spawnflag (2 ^ p) d =? b) && '
+        'match unpack_spawnflag b with (m, dd) => (m =? bm) && Bool.eqb dd bd end) 0 '
+        + coq_list(f'({p}, {coq_bool(d)}, {b}, ({bm}, {coq_bool(bd)}))' for p, d, b, bm, bd in rows_flag),
+        'bad_idx (fun c : string * bool * N * (string * bool) => let \'(n, tg, b, (bn, btg)) := c in match encode_type file_type_order n with '
+        'Some i => (pack_flag7 (N.of_nat i) tg =? b) && match unpack_flag7 b with (j, r) => Bool.eqb r btg && '
+        'match decode_type file_type_order (N.to_nat j) with Some m => String.eqb m bn | None => false end end | None => false end) 0 '
+        + coq_list(f'({q(n)}, {coq_bool(tg)}, {b}, ({q(bn)}, {coq_bool(btg)}))' for n, tg, b, bn, btg in rows_res),
     ]
     vals = ck.coq_eval(IMPORTS, exprs, name='bits', preamble=PRE)
     if vals is None:
@@ -301,9 +319,10 @@ def corr_bits(ck: Ck) -> None:
     nbad = sum(map(len, bad))
     ck.obligation('correspondence:bit_packings', nbad == 0,
                   f'exhaustive: {len(rows_kv)} value-type bytes, {len(rows_ent)} entity-flag bytes, {len(rows_flag)} spawnflag bytes, '
-                  f'{len(rows_res)} resource-type bytes written by kv_serialise/ent_serialise vs Fmt/FgdBin.v: {nbad} disagreements')
+                  f'{len(rows_res)} resource-type bytes written by kv_serialise/ent_serialise and read back by kv_unserialise/'
+                  f'ent_unserialise vs pack/unpack of Fmt/FgdBin.v: {nbad} disagreements')
     if nbad:
-        ck.tie_broken.append('correspondence bit packings (Fmt/FgdBin.v vs _engine_db.kv_serialise/ent_serialise)')
+        ck.tie_broken.append('correspondence bit packings (Fmt/FgdBin.v vs _engine_db kv/ent (un)serialise)')
         ck.extra['bit_packing_disagreement'] = {'kv': [rows_kv[i] for i in bad[0][:3]], 'ent': [rows_ent[i] for i in bad[1][:3]],
                                                 'flag': [rows_flag[i] for i in bad[2][:3]], 'res': [rows_res[i] for i in bad[3][:3]]}
 
@@ -313,7 +332,7 @@ def corr_strdict(ck: Ck) -> None:
     from srctools import _engine_db as E
     rng = ck.rng
     rows = []
-    for _ in range(ck.budget(120, 1200)):
+    for _ in range(ck.budget(120, 400)):
         nb = rng.choice([0, 1, 3, 8, E.SHARED_STRINGS, E.SHARED_STRINGS])
         base_set = rng.sample(range(1000, 1000 + 2 * max(nb, 4)), nb)
         own_set = rng.sample(range(5000, 5040), rng.randint(0, 12))
@@ -606,7 +625,7 @@ def roundtrip_fgd(fgd: Any, opts: dict) -> dict:
 # =============================================================================================== search: long strings
 def search_longstring(ck: Ck) -> None:
     rng = ck.rng
-    n = ck.budget(1500, 20000)
+    n = ck.budget(1500, 12000)
     corpus = [(True, ''), (False, ''), (True, 'q' * 999 + '"z'), (False, 'q' * 999 + '\nz'), (True, 'q' * 1998 + '\\z')]
     for i in range(n):
         if i < len(corpus):
@@ -1012,7 +1031,7 @@ def search_lazy(ck: Ck, data: bytes, tb: dict) -> None:
     names = tb['names']
     inv = {v: k for k, v in tb['ident'].items()}
     alias_names = [inv[i] for i in tb['bases']]
-    rounds = ck.budget(6, 60)
+    rounds = ck.budget(6, 30)
     for r in range(rounds):
         db = fresh_db(data)
         if r == 0:
@@ -1023,7 +1042,8 @@ def search_lazy(ck: Ck, data: bytes, tb: dict) -> None:
             rng.shuffle(order)
         got_first: dict[str, dict] = {}
         for q in order:
-            ent = copy.deepcopy(db.get_ent(q))       # EntityDef.engine_def
+            asked = q.upper() if rng.random() < 0.1 else q       # class names are case-insensitive
+            ent = copy.deepcopy(db.get_ent(asked))               # what EntityDef.engine_def does
             c = canon_ent(ent)
             ck.count('search_lazy_lookups')
             # bases must be resolved objects whose own definitions equal the eager ones
@@ -1114,12 +1134,22 @@ def run(ck: Ck) -> None:
     search_binary(ck, data)
     search_lazy(ck, data, tb)
     keys = {v['key'] for v in ck.violations}
+    # Failed obligations are explained by a concrete violation of the same mechanism (with a replayable input).
     if any(k.startswith('longstring:empty-text') or k.startswith('bundled-db-export-unparseable:empty-display-name') for k in keys):
         ck.explain('instance:longstring_empty_text_written_as_quotes')
-    if any(k.startswith('longstring:hard-cut') for k in keys):
+    if any(k.startswith('longstring:cut-strands') for k in keys):
         ck.explain('instance:longstring_hard_cut_never_strands_backslash')
     if any(k.startswith('longstring:') for k in keys):
-        ck.explain('instance:longstring_cfg_ok_is_these')
+        ck.explain('instance:longstring_')
+        ck.explain('instance:plain_escape_replacements')
+        ck.explain('correspondence:write_longstring')
+    if any(k.startswith('binary-') for k in keys):
+        ck.explain('instance:bit_literals_are_128_127')
+        ck.explain('instance:entflags_layout')
+        ck.explain('correspondence:bit_packings')
+        ck.explain('correspondence:BinStrDict')
+    if any(k.startswith('lazy-') for k in keys):
+        ck.explain('correspondence:lazy_db')
 
 
 # =============================================================================================== replay
